@@ -50,6 +50,8 @@ _HSRC = ["harness/c20_main.cc"]
 _per = {}
 for _s in _stubs + _HSRC:
     _per[_s] = _LIGHT
+for _s in _iface:
+    _per[_s] = ["-g0"]      # sanitized and optimised like the library, no debug info: 30% less compile time (reports are not symbolised anyway)
 
 HARNESSES = {
     "c20": {"src": _HSRC + _iface + _stubs, "variant": "asan", "flags": _INC, "per_src_flags": _per},
